@@ -994,6 +994,69 @@ static int op_dynfind(int argc, char **argv, FILE *out) {
     return 1;
 }
 
+/* dynconf <hex template secret> <hex id> <hex lookup-command output>: a realm whose server is discovered by an external command that
+   prints a server block (here: whatever the op says). The real path adddynamicrealmserver -> addserver -> clientwr ->
+   dynamicconfigexternal -> confserver_cb -> mergesrvconf runs; printed: the secret the discovered server ends up with, the length the
+   code will use for it, and a request serialised under it (so that a wrong length shows in the bytes, or in the sanitizer). */
+static int op_dynconf(int argc, char **argv, FILE *out) {
+    char *tsec, *id, *outp;
+    struct list *rl, *saved = realms;
+    struct realm *realm, *sub;
+    struct clsrvconf *conf;
+    if (argc != 4) /* the fourth argument (the secret the printed block sets, or ".") is for the model's side only */
+        return 0;
+    tsec = hxstr(argv[0]);
+    id = hxstr(argv[1]);
+    outp = hxstr(argv[2]);
+    if (!tsec || !id || !outp)
+        return 0;
+    h_threads_reset();
+    h_execlog_reset();
+    if (!protodefs[RAD_TCP])
+        protodefs[RAD_TCP] = tcpinit(RAD_TCP);
+    rl = list_create();
+    {
+        char star[] = "*";
+        realm = addrealm(rl, star, NULL, NULL, NULL, 0, 0);
+    }
+    conf = dynconf("dyn", stringcopy("/bin/lookup", 0));
+    free(conf->secret);
+    conf->secret = (uint8_t *)tsec;
+    conf->secret_len = unhex((char *)conf->secret, 1);
+    realm->srvconfs = list_create();
+    list_push(realm->srvconfs, conf);
+    realms = rl;
+    h_exec_status = 0;
+    h_exec_output = outp;
+    sub = adddynamicrealmserver(realm, id);
+    h_exec_output = NULL;
+    if (!sub || !sub->srvconfs || !list_first(sub->srvconfs))
+        fputs("none", out);
+    else {
+        struct clsrvconf *c = list_first(sub->srvconfs)->data;
+        struct radmsg *m;
+        uint8_t *buf = NULL, auth[16] = {0};
+        int n;
+        fputs("secret:", out);
+        puthex(out, c->secret, c->secret ? strlen((char *)c->secret) : 0);
+        fprintf(out, " len=%d", c->secret_len);
+        m = radmsg_init(RAD_Accounting_Request, 1, auth);
+        n = m ? radmsg2buf(m, c->secret, c->secret_len, &buf) : -1;
+        fputs(" pkt:", out);
+        if (n > 0)
+            puthex(out, buf, n);
+        else
+            fputs("-", out);
+        free(buf);
+        radmsg_free(m);
+    }
+    realms = saved;
+    free(h_transcript_take());
+    free(id);
+    free(outp);
+    return 1;
+}
+
 /* connstate <type 1 tls | 2 tcp | 3 dtls> <state> <reconnect 0|1>: the REAL connecter of that transport is entered with the server in
    the given state; its last successful connection is "just now", so that it gives up (its wait would exceed the time it
    is allowed) before it touches the network. Prints the server's state afterwards: what a request arriving while the connection is
@@ -1330,6 +1393,7 @@ int h_rsp_op(const char *op, int argc, char **argv, FILE *out) {
     if (!strcmp(op, "dynrealm")) return op_dynrealm(argc, argv, out);
     if (!strcmp(op, "dynfind")) return op_dynfind(argc, argv, out);
     if (!strcmp(op, "connstate")) return op_connstate(argc, argv, out);
+    if (!strcmp(op, "dynconf")) return op_dynconf(argc, argv, out);
     if (!strcmp(op, "idle")) return op_idle(argc, argv, out);
     if (!strcmp(op, "rxeval")) return op_rxeval(argc, argv, out);
     if (!strcmp(op, "reset")) return op_reset(argc, argv, out);
